@@ -256,6 +256,8 @@ def uses_manifest(func):
             return flask.make_response('Manifest name missing', 404)
         if not mft_name.endswith('.mpd'):
             mft_name = f"{mft_name}.mpd"
+            # the handler uses the name to select the template to render
+            kwargs['manifest'] = mft_name
         try:
             manifest = manifest_map[mft_name]
         except KeyError as err:
